@@ -292,3 +292,66 @@ def returns_under_pins(g, pins, limit=20000):
                     continue
             stack.append((q, env))
     return out
+
+
+def explore_pinned(g, pins, switch_vals=None, probes=(), limit=40000):
+    """Walk every path of the root function that is feasible when the expression nodes in `pins` (node idx -> T/F) and the
+    switch conditions in `switch_vals` (cond node idx -> integer value) are fixed; boolean locals/params are tracked.
+    Returns (returns, seen_probes): returns = set of (return node idx, value3 of a boolean return or None, frozenset of the
+    tracked boolean variables (var id, value3) at that return),
+    seen_probes = {probe node idx: set of three-valued values the expression has when the walk passes that point}."""
+    f = g.func
+    switch_vals = switch_vals or {}
+    probe_idx = set(probes)
+    rets = set()
+    seenp = {}
+    seen = set()
+    stack = [(g.entry, {})]
+    steps = 0
+    while stack:
+        p, env = stack.pop()
+        steps += 1
+        if steps > limit:
+            rets.add((None, U))
+            break
+        key = (p.id, tuple(sorted(env.items())))
+        if key in seen:
+            continue
+        seen.add(key)
+        n = p.n
+        if n is not None and p.f is f and p.ctx is g.root_ctx:
+            if n['i'] in probe_idx:
+                seenp.setdefault(n['i'], set()).add(eval3(f, n['i'], env, pins))
+            for (vid, strong, vx) in defs_in_node(f, n):
+                if n['k'] == 'declstmt':
+                    d = [d for d in n['decls'] if d['id'] == vid][0]
+                    if 'init' in d and is_bool_var_type(d['t']):
+                        env = dict(env)
+                        env[vid] = eval3(f, d['init'], env, pins)
+                elif n['k'] == 'binop' and n['op'] == '=':
+                    if is_bool_var_type(f.nodes[n['lhs']].get('t') or ''):
+                        env = dict(env)
+                        env[vid] = eval3(f, n['rhs'], env, pins)
+                elif vid in env:
+                    env = dict(env)
+                    env[vid] = U
+            if n['k'] == 'return':
+                e = n.get('e')
+                rets.add((n['i'], eval3(f, e, env, pins) if e is not None and e >= 0 else U, frozenset(env.items())))
+                continue
+        succ = p.succ
+        cases = [(q, lab) for (q, lab) in succ if lab and lab[0] == 'case']
+        if cases:
+            # which switch is this? the terminator condition of the block the point closes
+            cond = cases[0][1][4] if len(cases[0][1]) > 4 else None
+            val = switch_vals.get(cond) if cond is not None else None
+            if val is not None:
+                exact = [(q, lab) for (q, lab) in cases if lab[3] == 'case' and lab[1] == val]
+                succ = exact or [(q, lab) for (q, lab) in cases if lab[3] != 'case']
+        for (q, lab) in succ:
+            if lab and isinstance(lab[0], int) and lab[1] is f and p.ctx is g.root_ctx:
+                cv = eval3(f, lab[0], env, pins)
+                if cv is not U and cv != lab[2]:
+                    continue
+            stack.append((q, env))
+    return rets, seenp
